@@ -8,7 +8,9 @@ CLAIM = {
          "stats types and commands are symbolic) are packed, pushed as bytes through the real IOWorker/OFConnection.read into a SoftwareSwitch, and the "
          "bytes the switch writes are decoded. On every path z3 proves: exactly one reply or one error per request that needs one, none for the others, "
          "in request order, carrying the request's xid and the data the specification requires from the switch state at that point, and the specified "
-         "error type/code for invalid ports, queues, stats types, vendors, commands and buffers; no exception escapes and the connection stays open.",
+         "error type/code for invalid ports, queues, stats types, vendors, commands and buffers, and for requests invalid at the framing level (a bare "
+         "8-byte header of a type with a mandatory body: BAD_LEN; an unknown message type 22..255: BAD_TYPE) with the request's xid; no exception "
+         "escapes and the connection stays open.",
  'note': "Trusted: CPython, z3, symx proxies/shims, the expected-reply table in props/C13.py. Bounded: 3 requests per sequence, switch with 4 ports and "
          "at most one installed flow.",
 }
